@@ -15,6 +15,7 @@
 
 """A context for the handling of a trigger."""
 
+import sys
 import uuid
 from types import FrameType
 from typing import Dict, Optional, List
@@ -168,8 +169,22 @@ class TriggerContext:
             namespace.update(self.__frame.f_locals)
             return eval(expression, namespace)
         except BaseException as e:
-            # without the traceback, it refers to our own frames (and through them to the application's frame)
-            return e.with_traceback(None)
+            # without the part of the traceback this evaluation has added: it refers to our own frames (and through
+            # them to the application's frame). Older entries are not ours to remove - the expression may have raised
+            # an exception object the application keeps (future.result()), and reads the traceback of later on.
+            return e.with_traceback(self.__traceback_before(e.__traceback__, sys._getframe()))
+
+    @staticmethod
+    def __traceback_before(traceback, own_frame):
+        """Skip the entries for own_frame and the frames that ran below it."""
+        while traceback is not None:
+            frame = traceback.tb_frame
+            while frame is not None and frame is not own_frame:
+                frame = frame.f_back
+            if frame is None:
+                break
+            traceback = traceback.tb_next
+        return traceback
 
     def attach_result(self, result: ActionResult):
         """
